@@ -584,8 +584,20 @@ func (s *machine) actExists(t *rapid.T) {
 
 func (s *machine) actDelete(t *rapid.T) {
 	key := s.drawLiveKey(t)
-	s.logf("Delete %s", key)
-	err := s.db.Delete(s.full(key))
+	// a delete through an interface whose options set an expiry on everything it saves deletes all the same
+	db, via := s.db, ""
+	if s.cfg.cache == cacheNone && rapid.IntRange(0, 5).Draw(t, "always") == 0 {
+		opts := &database.Options{Local: true, Internal: true}
+		if rapid.Bool().Draw(t, "alwaysAbs") {
+			opts.AlwaysSetAbsoluteExpiry = rapid.SampledFrom([]int64{farFuture1, farFuture2}).Draw(t, "alwaysAbsFuture")
+		} else {
+			opts.AlwaysSetRelativateExpiry = rapid.SampledFrom([]int64{relTTLMin, 86400}).Draw(t, "alwaysRel")
+		}
+		db = database.NewInterface(opts)
+		via = fmt.Sprintf(" via an interface with AlwaysSetAbsoluteExpiry=%d AlwaysSetRelativateExpiry=%d", opts.AlwaysSetAbsoluteExpiry, opts.AlwaysSetRelativateExpiry)
+	}
+	s.logf("Delete %s%s", key, via)
+	err := db.Delete(s.full(key))
 	if !s.m.recs[key].visible() {
 		if !errors.Is(err, database.ErrNotFound) {
 			s.fail(t, "Delete(%s) of a key that is not visible returned %v, want not-found", key, err)
